@@ -273,7 +273,7 @@ func c15Check(docJSON string, pol mcrt.Policy) (sig, what string, nontrivial boo
 						fail("callback not invoked for an unresolvable parameter $ref ("+mode+")", fmt.Sprintf("%s: reported %v, expected %v", desc, reported, exp.Errors))
 					}
 				}
-				fmt.Fprintf(&sb, "%s=%d/%d;", desc, len(got), len(reported))
+				fmt.Fprintf(&sb, "%s=%v/%v;", desc, gs, reported)
 			}
 		}
 	}
